@@ -553,15 +553,18 @@ class Dict(dict, base.Symbolic, pg_typing.CustomTyping):
             self._error_message(
                 f'Key {key!r} is not allowed for {container_cls}.'))
 
-    # Detach old value from object tree.
-    if isinstance(old_value, base.TopologyAware):
-      old_value.sym_setparent(None)
-      old_value.sym_setpath(utils.KeyPath())
+    def _detach_old_value():
+      # Detach old value from object tree (only once the write is accepted: a
+      # rejected write must leave the stored child attached).
+      if isinstance(old_value, base.TopologyAware):
+        old_value.sym_setparent(None)
+        old_value.sym_setpath(utils.KeyPath())
 
     if (pg_typing.MISSING_VALUE == value and
         (not field or isinstance(field.key, pg_typing.NonConstKey))):
       if key in self:
         # Using pg.MISSING_VALUE for deleting keys.
+        _detach_old_value()
         super().__delitem__(key)
         new_value = pg_typing.MISSING_VALUE
       else:
@@ -570,6 +573,7 @@ class Dict(dict, base.Symbolic, pg_typing.CustomTyping):
         return None
     else:
       new_value = self._formalized_value(key, field, value)
+      _detach_old_value()
       super().__setitem__(key, new_value)
 
     self._invalidate_content_caches()
